@@ -348,7 +348,21 @@ pub fn eval_case(prop: &str, case: &Case, obs: &mut Obs) -> Vec<Violation> {
             }
         }
         ("C02", Case::Hist { h, .. }) => {
-            let (ex, sink) = run(h, &ExecOpts::default());
+            // 1 run in 16: a sink that fails one write call and recovers, finish retried (whatever
+            // a finish that reports success leaves in the sink must be one well-formed file)
+            let hv = h.hash();
+            let mut retry_h;
+            let mut h = h;
+            let (ex, sink) = if hv % 16 == 0 {
+                obs.count("runs_with_one_failing_write_then_retry", 1);
+                retry_h = h.clone();
+                retry_h.ops.push(Op::Finish(FinishKind::InPlaceStats));
+                retry_h.ops.push(Op::Finish(FinishKind::InPlace));
+                h = &retry_h;
+                crate::exec::run_fault(h, &ExecOpts::default(), crate::sink::Fault::FailWrite { k: ((hv >> 8) % 8) as usize, kind: ((hv >> 16) % crate::sink::KINDS.len() as u64) as usize })
+            } else {
+                run(h, &ExecOpts::default())
+            };
             if ex.any_panic() {
                 obs.inconclusive += 1;
                 return vec![];
